@@ -6,9 +6,12 @@
 //!    parser, over every kind x node x lane x body of a boundary pool.
 //!  * `multireader_*` (E2): explicit-state search over the real `swimos_multi_reader::MultiReader`
 //!    with scripted streams around the bucket boundary (slab indices 0, 1, 63, 64, 65).
+//!  * `socket_*` (E1): the real `RemoteTask` over an in-memory web socket with a peer, two agents,
+//!    three downlinks and a commander; deviation-bounded exploration of the schedule.
 
 mod multi;
 mod pure;
+mod socket;
 
 use serde_json::json;
 use std::time::Instant;
@@ -63,6 +66,11 @@ fn main() {
                     ctx.violation("replay", &sig, det);
                 }
             }
+            Some("socket") => {
+                for (sig, det) in socket::replay(d) {
+                    ctx.violation("replay", &sig, det);
+                }
+            }
             Some("multireader") => {
                 if let Some((sig, det)) = multi::replay(d) {
                     ctx.violation("replay", &sig, det);
@@ -113,13 +121,20 @@ fn main() {
     }
 
     // ---- leg (b): MultiReader
-    multi::run(&ctx);
+    if std::env::var("C11_SKIP_MULTI").is_err() {
+        multi::run(&ctx);
+    }
+
+    // ---- leg (c): RemoteTask over a duplex web socket
+    socket::run(&ctx);
 
     ctx.assume("blanks (space, tab) in front of a Recon body are insignificant: the peeler drops all of them; where the written body itself starts with a blank the check verifies that both texts parse to the same value");
     ctx.assume("Unlinked(None) and Unlinked(Some(\"\")) have the same wire form and are not distinguished");
-    ctx.assume("the socket-level leg (RemoteTask over a duplex web socket, E1) is not built; routing to subscribers is not covered by this check");
+    ctx.assume("socket leg: Tokio's own cooperative budget is switched off for the hand-polled futures (tokio::task::unconstrained); the byte-channel budget is the default (RunWithBudget, 64) and reset on every poll as in swimos_server_app");
+    ctx.assume("socket leg: FindNode requests are answered and local endpoints drained eagerly after every event (not explored); byte channels of 4096 bytes never fill; select! start branches are fixed by the runtime's RNG seed");
+    ctx.assume("socket leg: one peer script, one set of addresses; each source sends 1-2 tagged messages; deviation bound as stated per leg");
     ctx.finish(
         "model_checking",
-        "bounded-exhaustive enumeration of envelopes through the real writer and readers, and explicit-state search of the real MultiReader against its specification",
+        "bounded-exhaustive enumeration of envelopes through the real writer and readers, explicit-state search of the real MultiReader against its specification, and deviation-bounded schedule exploration of the real RemoteTask over an in-memory web socket",
     );
 }
